@@ -100,22 +100,29 @@ SgCred(k) == CASE k = "id0" -> <<"id0", "v1">> [] k = "id1" -> <<"id1", "v1">>
 Mats == [jsec : {"k0", "k1"}, aks : AkTables]
 Mat0 == [jsec |-> "k0", aks |-> Aks0]
 
-(* Basic credentials: user uPlain has a password without ':', uColon's password contains ':'.  *)
+(* Basic credentials: user uPlain has a password without ':', uColon's password contains ':',   *)
+(* uBlank's password begins and/or ends with WHITE SPACE (blank, tab, CR, LF, U+00A0, U+0085,    *)
+(* U+3000 ...) and its name may end with white space: white space is part of a credential like   *)
+(* any other character ("equal to a configured user's").                                         *)
 (* Each user has two passwords, version "v1" (initially configured) and "v2" (after a password  *)
 (* change); `ver` says from which one the presented password was derived.                       *)
 NoBs == [p |-> FALSE, user |-> "-", ver |-> "v1", pw |-> "-", b64 |-> TRUE]
 Bs(user, ver, pw, b64) == [p |-> TRUE, user |-> user, ver |-> ver, pw |-> pw, b64 |-> b64]
-BsUsers == {"uPlain", "uColon", "unknown"}
+BsUsers == {"uPlain", "uColon", "uBlank", "unknown"}
 (* the table of configured users: which password version is current, or "gone" (removed)       *)
-KnownUsers == {"uPlain", "uColon"}
+KnownUsers == {"uPlain", "uColon", "uBlank"}
 UserTables == [KnownUsers -> {"v1", "v2", "gone"}]
 Users0     == [u \in KnownUsers |-> "v1"]
 (* what a request meets: the configuration and material of the running generation, the clock,  *)
 (* the user table                                                                               *)
 Env(c, t, us, m) == [cfg |-> c, now |-> t, users |-> us, jsec |-> m.jsec, aks |-> m.aks]
-BsPws   == {"right", "wrong", "rightColonX", "prefix", "empty", "nocolon"}
+BsPws   == {"right", "wrong", "rightColonX", "prefix", "empty", "nocolon", "padded", "userPadded", "trimmed"}
    \* rightColonX: the right password followed by ":" and more; prefix: the part of uColon's
-   \* password before its first ':'; nocolon: credentials without any ':' at all
+   \* password before its first ':'; nocolon: credentials without any ':' at all;
+   \* credentials that differ from the configured ones by white space at the ends only -
+   \* padded: white space added before and/or after the right password; userPadded: the right
+   \* password, white space added before and/or after the user name; trimmed (uBlank): the right
+   \* credentials without (some of) the white space at the ends of the password / the name
 
 ----------------------------------------------------------------------------------------------
 (* The contract, method by method.                                                              *)
@@ -178,8 +185,9 @@ VSig(c, r, e) ==
     ELSE IF VSg(c, r.sg, e) = "bad" THEN "bad" ELSE "free"
 
 (* basic: "Basic credentials equal to a configured user's": the user is in the table NOW and the *)
-(* presented password is exactly its current one.  Without a mode there is no user source,      *)
-(* hence no configured user: nothing can be valid.                                              *)
+(* presented password is exactly its current one - every other class of BsPws, including the    *)
+(* ones that differ by leading / trailing white space only, is another user or another password.*)
+(* Without a mode there is no user source, hence no configured user: nothing can be valid.      *)
 VBasic(c, r, e) ==
     IF c.basic = "nomode" THEN "bad"
     ELSE IF /\ r.auth = "basic" /\ r.bs.user \in KnownUsers /\ e.users[r.bs.user] = r.bs.ver
@@ -223,8 +231,9 @@ Mutants(c, r) ==
     \cup (IF c.sig.on /\ r.sg.p
        THEN {[r EXCEPT !.sg.mut[p] = TRUE] : p \in {q \in Covered(c) : ~r.sg.mut[q]}} ELSE {})
     \cup (IF c.basic # "off" /\ r.auth = "basic" /\ r.bs.pw = "right"
-       THEN {[r EXCEPT !.bs.pw = w] : w \in {"wrong", "rightColonX", "empty"} \cup
-                                            (IF r.bs.user = "uColon" THEN {"prefix"} ELSE {})} ELSE {})
+       THEN {[r EXCEPT !.bs.pw = w] : w \in {"wrong", "rightColonX", "empty", "padded"} \cup
+                                            (IF r.bs.user = "uColon" THEN {"prefix"} ELSE {}) \cup
+                                            (IF r.bs.user = "uBlank" THEN {"trimmed"} ELSE {})} ELSE {})
     \cup (IF c.hdr # "off" /\ Len(r.hv) = 1 THEN {[r EXCEPT !.hv = <<"neither">>]} ELSE {})
 
 ----------------------------------------------------------------------------------------------
@@ -395,7 +404,7 @@ IBasic(c, r, e, repaired) ==
     \/ /\ r.auth = "basic" /\ r.bs.b64 /\ r.bs.user \in KnownUsers
        /\ e.users[r.bs.user] = r.bs.ver                      \* htpasswd table as last (re)loaded
        /\ IF repaired THEN r.bs.pw = "right"
-          ELSE \/ r.bs.user = "uPlain" /\ r.bs.pw \in {"right", "rightColonX"}
+          ELSE \/ r.bs.user \in {"uPlain", "uBlank"} /\ r.bs.pw \in {"right", "rightColonX"}
                \/ FALSE                                      \* uColon: parts[1] is never its password
 
 (* Handle: the methods in this order, the first failure returns *)
